@@ -18,13 +18,13 @@ theorem charge_length (p : List K) (dt w : K) : (charge p dt w).length = p.lengt
   simp [charge]
 
 theorem binCharge_length (g : Geom) (p : List K) (dt w : K) (h : p.length = g.ninput) :
-    (charge (binND g.s g.dims p) dt w).length = g.npix := by
-  rw [charge_length, binND_length _ _ _ h]; rfl
+    (charge (binNDs g.ss g.dims p) dt w).length = g.npix := by
+  rw [charge_length, binNDs_length _ _ g.hl _ h]; rfl
 
 theorem sumCharges_nil (g : Geom) : sumCharges g ([] : List (List K × K × K)) = vzero g.npix := rfl
 
 theorem sumCharges_snoc (g : Geom) (l : List (List K × K × K)) (x : List K × K × K) :
-    sumCharges g (l ++ [x]) = vadd (sumCharges g l) (charge (binND g.s g.dims x.1) x.2.1 x.2.2) := by
+    sumCharges g (l ++ [x]) = vadd (sumCharges g l) (charge (binNDs g.ss g.dims x.1) x.2.1 x.2.2) := by
   simp [sumCharges, List.foldl_append]
 
 /-- every pending integration has the size of the input grid -/
@@ -32,7 +32,7 @@ def Valid (g : Geom) (l : List (List K × K × K)) : Prop := ∀ x ∈ l, x.1.le
 
 theorem foldl_charges_length (g : Geom) (l : List (List K × K × K)) (a : List K)
     (ha : a.length = g.npix) (h : Valid g l) :
-    (l.foldl (fun a (x : List K × K × K) => vadd a (charge (binND g.s g.dims x.1) x.2.1 x.2.2)) a).length
+    (l.foldl (fun a (x : List K × K × K) => vadd a (charge (binNDs g.ss g.dims x.1) x.2.1 x.2.2)) a).length
       = g.npix := by
   induction l generalizing a with
   | nil => simpa using ha
@@ -389,6 +389,113 @@ theorem rStep_known_sub (g : Geom) (st : RSt K) (op : ROp K) : ∀ r ∈ st.know
   | write r' v => simp only [rStep]; split <;> exact hr
   | integrate buf dt w => simp only [rStep]; split <;> exact hr
   | readOut => simp [rStep, hr]
+
+/-! ### the noisy detector with the noise sources on (`pReadOutRng`) -/
+
+section
+variable [DecidableEq K]
+
+theorem darkTime_snoc (l : List (List K × K × K)) (x : List K × K × K) :
+    darkTime (l ++ [x]) = darkTime l + x.2.1 * x.2.2 := by
+  simp [darkTime]
+
+theorem dark_step_alg (S c d : List K) (T dt w : K) :
+    List.zipWith (fun a d => a + d * dt * w) (vadd (vadd S (d.map (· * T))) c) d
+      = vadd (vadd S c) (d.map (· * (T + dt * w))) := by
+  induction S generalizing c d with
+  | nil => simp [vadd]
+  | cons a S ih =>
+    cases c with
+    | nil => simp [vadd]
+    | cons b c =>
+      cases d with
+      | nil => simp [vadd]
+      | cons e d =>
+        have := ih c d
+        simp only [vadd] at this ⊢
+        simp only [List.map_cons, List.zipWith_cons_cons, this, List.cons.injEq, and_true]
+        ring
+
+/-- the accumulated charge of `pst` is `Σ bin(p)·dt·w + dark·Σ dt·w` over the pending integrations `cur` -/
+structure PRep (g : Geom) (pst : PSt K) (cur : List (List K × K × K)) : Prop where
+  lam : pst.lam g = vadd (sumCharges g cur) (pst.dark.map (· * darkTime cur))
+  valid : Valid g cur
+  dlen : pst.dark.length = g.npix
+
+theorem vadd_map_zero (S d : List K) (h : S.length = d.length) : vadd S (d.map (· * (0 : K))) = S := by
+  induction S generalizing d with
+  | nil => simp [vadd]
+  | cons a S ih =>
+    cases d with
+    | nil => simp at h
+    | cons e d => simp only [List.length_cons, Nat.add_right_cancel_iff] at h; simp [vadd] at ih ⊢; exact ih d h
+
+theorem PRep.init (g : Geom) (pst : PSt K) (h : pst.acc = none) (hd : pst.dark.length = g.npix) : PRep g pst [] := by
+  refine ⟨?_, by intro x hx; simp at hx, hd⟩
+  simp only [PSt.lam, h, Option.getD_none, sumCharges_nil, darkTime, List.map_nil, List.sum_nil]
+  rw [vadd_map_zero _ _ (by simp [vzero, hd])]
+
+theorem pAccAdd_eq (g : Geom) (pst : PSt K) (c : List K) (hc : c.length = g.npix) :
+    accAdd pst.acc c = vadd (pst.lam g) c := by
+  cases h : pst.acc with
+  | none => simp [accAdd, PSt.lam, h, vadd_vzero_left _ _ hc]
+  | some a => simp [accAdd, PSt.lam, h]
+
+theorem PRep.integrate {g : Geom} {pst : PSt K} {cur} (hr : PRep g pst cur) (p : List K) (dt w : K)
+    (hp : p.length = g.ninput) :
+    PRep g (pStep g pst (.integrate p dt w)).1 (cur ++ [(p, dt, w)]) := by
+  have hc := binCharge_length g p dt w hp
+  refine ⟨?_, ?_, ?_⟩
+  · simp only [pStep, hp, if_true, PSt.lam, Option.getD_some]
+    rw [pAccAdd_eq g pst _ hc, hr.lam, sumCharges_snoc, darkTime_snoc, dark_step_alg]
+  · intro x hx
+    rcases List.mem_append.mp hx with h | h
+    · exact hr.valid x h
+    · simp at h; subst h; exact hp
+  · simpa [pStep, hp] using hr.dlen
+
+theorem pIntegrateAll_rep (g : Geom) (l : List (List K × K × K)) (hv : Valid g l) (pst : PSt K) (cur)
+    (hr : PRep g pst cur) : PRep g (pIntegrateAll g pst l) (cur ++ l) := by
+  induction l generalizing pst cur with
+  | nil => simpa [pIntegrateAll] using hr
+  | cons x l ih =>
+    have := ih (fun y hy => hv y (by simp [hy])) _ _ (hr.integrate x.1 x.2.1 x.2.2 (hv x (by simp)))
+    simpa [pIntegrateAll] using this
+
+theorem pIntegrateAll_params (g : Geom) (l : List (List K × K × K)) (pst : PSt K) :
+    (pIntegrateAll g pst l).flat = pst.flat ∧ (pIntegrateAll g pst l).dark = pst.dark ∧
+      (pIntegrateAll g pst l).sigma = pst.sigma ∧ (pIntegrateAll g pst l).photon = pst.photon := by
+  induction l generalizing pst with
+  | nil => simp [pIntegrateAll]
+  | cons x l ih =>
+    have h := ih (pStep g pst (.integrate x.1 x.2.1 x.2.2)).1
+    simp only [pIntegrateAll, List.foldl_cons] at h ⊢
+    obtain ⟨h1, h2, h3, h4⟩ := h
+    refine ⟨h1.trans ?_, h2.trans ?_, h3.trans ?_, h4.trans ?_⟩ <;> (simp only [pStep]; split <;> rfl)
+
+theorem vmul_getD (a b : List K) (i : Nat) (ha : i < a.length) (hb : i < b.length) :
+    (vmul a b).getD i 0 = a.getD i 0 * b.getD i 0 := by
+  simp [vmul, List.getD_eq_getElem?_getD, List.getElem?_zipWith, List.getElem?_eq_getElem ha,
+    List.getElem?_eq_getElem hb]
+
+theorem vmul_length (a b : List K) : (vmul a b).length = min a.length b.length := by simp [vmul]
+
+theorem vmul_ones (a : List K) (n : Nat) (h : a.length = n) : vmul a (List.replicate n (1 : K)) = a :=
+  zipWith_mul_ones a n h
+
+theorem vmul_vzero_left (n : Nat) (z : List K) (h : z.length = n) : vmul (vzero n : List K) z = vzero n := by
+  induction z generalizing n with
+  | nil => subst h; simp [vmul, vzero]
+  | cons x z ih =>
+    cases n with
+    | zero => simp at h
+    | succ n =>
+      simp only [List.length_cons, Nat.add_right_cancel_iff] at h
+      have := ih n h
+      simp only [vmul, vzero] at this ⊢
+      simp [List.replicate_succ, this]
+
+end
 
 
 end HcipyVerif.Detector
